@@ -62,6 +62,7 @@ class QueryMachine(Machine):
         if t == "hist":
             cost = rng.choice(["nll", "nll", "nllr", "chi2", "gauss_approximation"])
         spec = fitlib.gen_new(rng, t, cost=cost, nmax=8 if tier == "quick" else 12)
+        spec["tiny"] = False  # badly scaled problems test the optimiser's convergence (C06), not the query protocol
         names = fitlib.par_names(spec)
         n = fitlib.size_of(spec)
         ops = [["new", spec, []]]
